@@ -252,6 +252,28 @@ func TestKeyLayer(t *testing.T) {
 		}
 	})
 
+	t.Run("pagination_key_time_survives_prefix_stripping", func(t *testing.T) {
+		// prefix-store iteration (query.Paginate over prefix.NewStore) hands the callback the key with the prefix removed;
+		// ParseRedelegationPaginationKeyTime must still read the completion time of the full key, for each prefix the queries use
+		for _, tm := range klTimes {
+			for _, a := range klAddrs {
+				for _, d := range klDenoms {
+					for _, v := range klAddrs {
+						rk := types.GetRedelegationKey(a, d, v, tm)
+						for _, pf := range [][]byte{types.GetRedelegationsKeyByDelegator(a), types.GetRedelegationsKeyByDelegatorAndDenom(a, d), types.GetRedelegationsKey(a, d, v), types.RedelegationKey} {
+							if !bytes.HasPrefix(rk, pf) || len(rk) <= len(pf) {
+								t.Fatalf("prefix %x is not a proper prefix of redelegation key (%x,%s,%x,%s)", pf, a, d, v, tm)
+							}
+							if got := types.ParseRedelegationPaginationKeyTime(rk[len(pf):]); !got.Equal(tm) {
+								t.Fatalf("ParseRedelegationPaginationKeyTime(stripped key of (%x,%s,%x,%s)) = %s", a, d, v, tm, got)
+							}
+						}
+					}
+				}
+			}
+		}
+	})
+
 	t.Run("family_prefixes", func(t *testing.T) {
 		fam := map[string][]byte{"asset": types.AssetKey, "valinfo": types.ValidatorInfoKey, "flag": types.AssetRebalanceQueueKey, "snapshot": types.RewardWeightChangeSnapshotKey,
 			"delegation": types.DelegationKey, "redelegation": types.RedelegationKey, "redelq": types.RedelegationQueueKey, "undelq": types.UndelegationQueueKey,
